@@ -97,6 +97,8 @@ type gen struct {
 	// they are only generated inside order-insensitive units.
 	single bool
 	budget int
+	noProj, noFn, noLogic bool // restrict to a fragment
+	paths                 bool // prefer document paths over literals as function arguments
 }
 
 func (g *gen) num() float64 {
@@ -334,6 +336,11 @@ func (g *gen) rhs(elem interface{}, depth int) toks {
 			break
 		}
 		t = append(t, s...)
+		if len(s) > 1 && s[0] == "." && (s[1] == "[" || s[1] == "{") {
+			// a multi-select ends a dot right-hand side: a following bracket
+			// would apply to the whole projection, not to each element
+			break
+		}
 		v, ok := evalSafe("@"+strings.TrimPrefix(s.text(), "@"), cur)
 		if !ok {
 			break
@@ -367,7 +374,7 @@ func (g *gen) suffix(cur interface{}, depth int, inRHS bool) toks {
 			return toks{".", g.identTok(g.someKey(cur))}
 		case k < 72:
 			// object wildcard: only where iteration order cannot be observed
-			if !g.single {
+			if !g.single || g.noProj {
 				return toks{".", g.identTok(g.someKey(cur))}
 			}
 			var el interface{}
@@ -398,6 +405,9 @@ func (g *gen) suffix(cur interface{}, depth int, inRHS bool) toks {
 		}
 	case 2:
 		a, _ := cur.([]interface{})
+		if g.noProj {
+			return toks{"[", g.intTok(len(a)), "]"}
+		}
 		switch k := g.r.intn(100); {
 		case k < 25:
 			return toks{"[", g.intTok(len(a)), "]"}
@@ -591,8 +601,17 @@ func (g *gen) typed(cur interface{}, want string, depth int) (toks, interface{},
 		v, ok := evalSafe(t.text(), cur)
 		return t, v, ok
 	}
-	for try := 0; try < 3 && depth > 0; try++ {
-		t := g.expr(cur, depth-1)
+	tries := 3
+	if g.paths {
+		tries = 8
+	}
+	for try := 0; try < tries && depth > 0; try++ {
+		var t toks
+		if g.paths {
+			t = g.path(cur, 1+g.r.intn(3))
+		} else {
+			t = g.expr(cur, depth-1)
+		}
 		if v, ok := evalSafe(t.text(), cur); ok && typeMatches(v, want) {
 			return t, v, true
 		}
@@ -677,7 +696,14 @@ func (g *gen) expr(cur interface{}, depth int) toks {
 	if depth <= 0 || g.budget <= 0 {
 		return g.atom(cur)
 	}
-	switch k := g.r.intn(100); {
+	k := g.r.intn(100)
+	if g.noFn && k >= 50 && k < 62 {
+		k = 20
+	}
+	if g.noLogic && k >= 70 && k < 84 {
+		k = 30
+	}
+	switch {
 	case k < 12:
 		return g.atom(cur)
 	case k < 50: // chain: left followed by a suffix chosen for its value
@@ -829,4 +855,41 @@ func render(t toks, mode int, r *rng) string {
 		sb.WriteString(ws[r.intn(len(ws))])
 	}
 	return sb.String()
+}
+
+// path: a plain navigation path into cur (fields and indexes that exist).
+func (g *gen) path(cur interface{}, n int) toks {
+	t := toks{}
+	for i := 0; i < n; i++ {
+		switch v := cur.(type) {
+		case map[string]interface{}:
+			if len(v) == 0 {
+				break
+			}
+			ks := sortedKeys(v)
+			k := ks[g.r.intn(len(ks))]
+			if len(t) > 0 {
+				t = append(t, ".")
+			}
+			t = append(t, g.identTok(k))
+			cur = v[k]
+			continue
+		case []interface{}:
+			if len(v) == 0 {
+				break
+			}
+			j := g.r.intn(len(v))
+			if len(t) == 0 {
+				t = append(t, "@")
+			}
+			t = append(t, "[", strconv.Itoa(j), "]")
+			cur = v[j]
+			continue
+		}
+		break
+	}
+	if len(t) == 0 {
+		return toks{"@"}
+	}
+	return t
 }
